@@ -302,7 +302,7 @@ func main() {
 		})
 
 		r.Part("E2-write-side-leaves-caller-bytes-intact", func(t *explore.T) {
-			sizes := []int{0, 1, 127, 128, 129, 255, 256, 257, 4095, 4096, 4097, 65536, 65537}
+			sizes := []int{0, 1, 127, 128, 129, 255, 256, 257, 4095, 4096, 4097, 65536, 65537, 131072}
 			type wcase struct {
 				name string
 				run  func(p []byte, d *env.Dst) (payloadOnWire func() []byte, err error)
@@ -395,6 +395,26 @@ func main() {
 						got := wire()
 						if !bytes.Equal(got, orig) {
 							return explore.Failf("wire-payload-affected-by-slice-reuse:"+c.name, "first difference at %d (len %d vs %d)", firstDiff(got, orig), len(got), len(orig))
+						}
+						// the same call against a destination that fails at every one of its Write
+						// calls in turn (accepting nothing, or half): whatever the outcome, the
+						// caller's bytes stay as they were
+						ncalls := len(d.Calls)
+						for k := 0; k < ncalls; k++ {
+							for _, partial := range []int{0, len(d.Calls[k]) / 2} {
+								copy(p, orig)
+								fd := env.NewDst()
+								fd.FailAt, fd.Partial = k, partial
+								fin, _ := c.run(p, fd)
+								if !bytes.Equal(p, orig) {
+									return explore.Failf("caller-slice-modified-by-failed-write:"+c.name, "destination failed at call %d (accepted %d bytes): first difference at %d", k, partial, firstDiff(p, orig))
+								}
+								fin()
+								if !bytes.Equal(p, orig) {
+									return explore.Failf("caller-slice-modified-by-flush-after-failed-write:"+c.name, "destination failed at call %d: first difference at %d", k, firstDiff(p, orig))
+								}
+								t.Count(1, 1)
+							}
 						}
 						return nil
 					})
